@@ -312,7 +312,7 @@ JANET_CORE_FN(cfun_buffer_chars,
     for (i = 1; i < argc; i++) {
         JanetByteView view = janet_getbytes(argv, i);
         if (view.bytes == buffer->data) {
-            janet_buffer_ensure(buffer, buffer->count + view.len, 2);
+            janet_buffer_extra(buffer, view.len);
             view.bytes = buffer->data;
         }
         janet_buffer_push_bytes(buffer, view.bytes, view.len);
@@ -454,7 +454,7 @@ static void buffer_push_impl(JanetBuffer *buffer, Janet *argv, int32_t argc_offs
         } else {
             JanetByteView view = janet_getbytes(argv, i);
             if (view.bytes == buffer->data) {
-                janet_buffer_ensure(buffer, buffer->count + view.len, 2);
+                janet_buffer_extra(buffer, view.len);
                 view.bytes = buffer->data;
             }
             janet_buffer_push_bytes(buffer, view.bytes, view.len);
